@@ -335,3 +335,97 @@ func H_C09_computedTwice() {
 		vfAssert(e == nil && o == w, "a later Execute with another name renders that template")
 	}
 }
+
+// H_C09_sites2 (thorough): the same three calls placed inside two nested constructs (each of
+// range, block with its own context, content of a yield, try, if) in the main file or in a
+// template included from it, with and without an explicit context: the target sees the
+// innermost '.', afterwards '.' is the innermost construct's again, and nothing leaks.
+//
+//gosym:reach include,exec,ifexists
+//gosym:thorough-only
+func H_C09_sites2() {
+	kind := ndChoice("kind", 3)
+	withCtx := ndBool("ctx")
+	viaMid := ndBool("viaMid")
+	s1, s2 := ndChoice("outer", 5), ndChoice("inner", 5)
+	v := ndString("v", 1)
+	target := "/sub/i.jet"
+	ctxArg := ""
+	var call string
+	switch kind {
+	case 0:
+		if withCtx {
+			ctxArg = ` "C"`
+		}
+		call = `{{ include "` + target + `"` + ctxArg + ` }}`
+	case 1:
+		if withCtx {
+			ctxArg = `, "C"`
+		}
+		call = `[{{ exec("/sub/e.jet"` + ctxArg + `) }}]`
+	default:
+		if withCtx {
+			ctxArg = `, "C"`
+		}
+		call = `{{ if includeIfExists("` + target + `"` + ctxArg + `) }}Y{{ end }}`
+	}
+	probe := `({{ . }}{{ isset(leak) }})`
+	wrap := func(site int, tag string, body string, dot string) (string, string, string, string) {
+		// returns source, the '.' inside, and the text the construct adds before / after
+		switch site {
+		case 0:
+			return `{{ range r` + tag + ` }}` + body + `{{ end }}`, "e" + tag, "", ""
+		case 1:
+			return `{{ block bb` + tag + `() "B` + tag + `" }}` + body + `{{ end }}`, "B" + tag, "", ""
+		case 2:
+			return `{{ yield wrap() content }}` + body + `{{ end }}`, dot, "<", ">"
+		case 3:
+			return `{{ try }}` + body + `{{ end }}`, dot, "", ""
+		}
+		return `{{ if true }}` + body + `{{ end }}`, dot, "", ""
+	}
+	// dots are determined outside-in, sources are built inside-out
+	_, d1, pre1, post1 := wrap(s1, "1", "", "D")
+	_, d2, pre2, post2 := wrap(s2, "2", "", d1)
+	innerSrc, _, _, _ := wrap(s2, "2", call+probe, d1)
+	outerSrc, _, _, _ := wrap(s1, "1", innerSrc+probe, "D")
+	main := outerSrc
+	if viaMid {
+		main = `{{ include "/sub/mid.jet" }}`
+	}
+	set := hxSet([]Option{WithSafeWriter(nil)},
+		"/lib.jet", `{{ block wrap() }}<{{ yield content }}>{{ end }}`,
+		"/main.jet", `{{ import "/lib.jet" }}{{ block own() }}O{{ end }}{{ v2 := v }}`+main+`|{{ . }}{{ isset(leak) }}`,
+		"/sub/mid.jet", `M`+outerSrc,
+		"/sub/i.jet", `I[{{ . }}|{{ v2 }}|{{ yield own() }}]{{ leak := 1 }}`,
+		"/sub/e.jet", `noise{{ leak := 1 }}{{ return . + v2 + "R" }}more`,
+	)
+	vars := make(VarMap)
+	vars.Set("v", v)
+	vars.Set("r1", []string{"e1"})
+	vars.Set("r2", []string{"e2"})
+	out, err := hxExec(set, "/main.jet", vars, "D")
+	vfAssert(err == nil, "renders")
+	ctx := d2
+	if withCtx {
+		ctx = "C"
+	}
+	var want string
+	switch kind {
+	case 0:
+		vfReach("include")
+		want = "I[" + ctx + "|" + v + "|O]"
+	case 1:
+		vfReach("exec")
+		want = "[" + ctx + v + "R]"
+	default:
+		vfReach("ifexists")
+		want = "I[" + ctx + "|" + v + "|O]Y"
+	}
+	want = pre1 + pre2 + want + "(" + d2 + "false)" + post2 + "(" + d1 + "false)" + post1
+	if viaMid {
+		want = "M" + want
+	}
+	vfNote(out)
+	vfAssert(out == "O"+want+"|Dfalse", "the call renders / evaluates as documented inside two nested constructs and leaks nothing back")
+}
